@@ -85,7 +85,8 @@ def evaluate_expression(expression: str, context: dict[str, Any]) -> Any:
         tree = ast.parse(expr, mode="eval")
     except (SyntaxError, ValueError) as e:
         raise ExpressionError(f"Invalid expression syntax: {e}") from e
-    except RecursionError as e:
+    except (RecursionError, MemoryError) as e:
+        # CPython reports a parser stack overflow as MemoryError
         raise ExpressionError("Expression is too deeply nested") from e
 
     try:
